@@ -1579,6 +1579,9 @@ func (p *parsing) parseSimpleStatement(tok token, canBeRange, nextIsBlockOpen bo
 func (p *parsing) parseIdentifiersList(tok token) ([]*ast.Identifier, token) {
 	idents := []*ast.Identifier{}
 	for {
+		if tok.typ != tokenIdentifier {
+			panic(syntaxError(tok.pos, "unexpected %s, expecting name", tok))
+		}
 		idents = append(idents, p.parseIdentifierNode(tok))
 		tok = p.next()
 		if tok.typ == tokenComma {
